@@ -14,7 +14,7 @@
       207  RUNNING report: only the state column changes    <- (run-time monitor only)
       40   the set of queried job ids = the live jobs       <- ledger coupling, see C04 *)
 From MWF Require Import Base.Util Exec.ExecBase Exec.ExecGen Exec.ExecRun Exec.ExecTrace Exec.ExecGraph
-  Exec.ExecInv Exec.ExecFault.
+  Exec.ExecInv Exec.ExecPoll Exec.ExecFault Exec.ExecLocal.
 
 (** ** QERROR: the poll aborts; records, sets, queue and dependency table are those of the
     pre-state; the cancel flag is set only by a simultaneous cancel request; the only
@@ -138,6 +138,17 @@ Theorem C20_run_partial_frame : forall c g,
   ~ In x (completed (st_post t)) /\ ~ In x (failed (st_post t)) /\ ~ In x (cancelled (st_post t)).
 Proof. exact run_frame. Qed.
 Print Assumptions C20_run_partial_frame.
+
+(** ... and unconditionally, with the preservation theorem of Exec/ExecPoll.v plugged in: every
+    executed poll of every run from the initial state whose answers are valid ([valid_pins]:
+    each answer mentions tracked steps only, each at most once). *)
+Theorem C20_run_partial_frame_valid : forall c g ps t x, WF g -> valid_pins c g (init g) ps = true ->
+  In t (run_steps c g (init g) ps) -> In x (inprog (st_pre t)) ->
+  (forall o, In (x, o) (delivered c (st_pin t)) -> quiet o = true) ->
+  getrec (st_post t) x = getrec (st_pre t) x /\ In x (inprog (st_post t)) /\
+  ~ In x (completed (st_post t)) /\ ~ In x (failed (st_post t)) /\ ~ In x (cancelled (st_post t)).
+Proof. exact run_frame_valid. Qed.
+Print Assumptions C20_run_partial_frame_valid.
 
 (** ** Non-vacuity: a concrete graph (0 -> 2 <- 1), the state after the first poll (0 and 1
     in progress), answers with faults. *)
